@@ -61,6 +61,7 @@ func verifYield()
 func verifJoin()
 func verifMapOrder(on bool)
 func verifNote(msg string)
+func verifIsReplay() bool
 func verifFmtExact(on bool)
 func verifIteByte(c bool, a, b byte) byte
 func verifIteU64(c bool, a, b uint64) uint64
